@@ -1374,6 +1374,34 @@ func GenC07(rng *rand.Rand, thorough bool, emit func(*Sx)) {
 					}
 				}
 			}
+			// --- a chunk refused for the size limit ends the transaction: an empty LAST chunk behind it completes nothing ---
+			for _, firstOK := range []bool{false, true} {
+				for ti, term := range terms {
+					cfg := cfg
+					cfg.MaxBytes = 5
+					f := newF(cfg)
+					f.hello()
+					f.cmd("MAIL FROM:<s@ok>", 250)
+					f.cmd("RCPT TO:<r0@ok>", 250)
+					n250 := int64(3)
+					if firstOK {
+						f.cmd("BDAT 3", 250)
+						f.raw("abc")
+						n250 = 4
+					}
+					f.cmd("BDAT 9", 552)
+					f.cut()
+					f.raw("too large")
+					f.cmd("BDAT 0 LAST", 502)
+					f.cmd("BDAT 0 LAST", 502)
+					if ti > 0 {
+						f.known = false
+					}
+					f.add(L(A("forbid-eof")))
+					f.add(L(A("max-250"), Num(n250)))
+					emit(RunConv(f.caseOf("C07", segStream(rng, f.out, f.cuts, ti%3, term))))
+				}
+			}
 			// --- the client abandons a chunked transfer (also: after a transaction that was completed
 			// with BDAT ... LAST or with DATA on the same connection) ---
 			for _, prior := range []string{"", "bdat", "data", "bdat-bdat", "atlimit"} {
